@@ -8,7 +8,7 @@
 use adblock::lists::ParseOptions;
 use adblock::regex_manager::RegexManagerDiscardPolicy;
 use adblock::request::Request;
-use adblock::resources::{MimeType, Resource};
+use adblock::resources::{MimeType, Resource, ResourceType};
 use adblock::Engine;
 use std::time::Duration;
 
@@ -325,16 +325,33 @@ pub fn gen_workload(spec: &RunSpec) -> Workload {
 pub fn aggressive_policy() -> RegexManagerDiscardPolicy {
     RegexManagerDiscardPolicy { cleanup_interval: Duration::from_nanos(1), discard_unused_time: Duration::from_secs(0) }
 }
+/// Cleanup still runs at every acquisition but discards nothing (used after the run, so that the
+/// final dump shows compiled regexes).
+pub fn lenient_policy() -> RegexManagerDiscardPolicy {
+    RegexManagerDiscardPolicy { cleanup_interval: Duration::from_nanos(1), discard_unused_time: Duration::from_secs(3600) }
+}
+/// How many queries of every thread are repeated after the run (post phase).
+pub const POST_QUERIES: usize = 2;
 pub fn mild_policy() -> RegexManagerDiscardPolicy {
     RegexManagerDiscardPolicy { cleanup_interval: Duration::from_nanos(1), discard_unused_time: Duration::from_micros(20) }
 }
 
 pub fn build_engine(w: &Workload) -> Engine {
     let mut e = Engine::from_rules_parametrised(w.rules.iter(), ParseOptions::default(), true, w.optimize);
+    // (Resource::simple is test-only; contents are base64 of "(function() {})()", "GIF89a",
+    // "console.log('{{1}}')")
+    let res = |name: &str, kind: MimeType, b64: &str| Resource {
+        name: name.to_string(),
+        aliases: vec![],
+        kind: ResourceType::Mime(kind),
+        content: b64.to_string(),
+        dependencies: vec![],
+        permission: Default::default(),
+    };
     e.use_resources([
-        Resource::simple("noop.js", MimeType::ApplicationJavascript, "(function() {})()"),
-        Resource::simple("1x1.gif", MimeType::ImageGif, "GIF89a"),
-        Resource::simple("noop-scriptlet.js", MimeType::ApplicationJavascript, "console.log('{{1}}')"),
+        res("noop.js", MimeType::ApplicationJavascript, "KGZ1bmN0aW9uKCkge30pKCk="),
+        res("1x1.gif", MimeType::ImageGif, "R0lGODlh"),
+        res("noop-scriptlet.js", MimeType::ApplicationJavascript, "Y29uc29sZS5sb2coJ3t7MX19Jyk="),
     ]);
     if !w.tags.is_empty() {
         e.use_tags(&w.tags);
@@ -387,6 +404,11 @@ pub fn answer(e: &Engine, q: &Query) -> (String, bool) {
         }
         QKind::Cosmetic => {
             let r = e.url_cosmetic_resources(&q.url);
+            // the scriptlets of a page are emitted in the iteration order of a per-call HashSet
+            // (std RandomState): the same engine gives the same blocks in varying order from one
+            // call to the next, in any build and on one thread.  Canonical form: sorted blocks.
+            let mut blocks: Vec<&str> = r.injected_script.split_inclusive("} catch ( e ) { }\n").collect();
+            blocks.sort();
             (
                 format!(
                     "H:gh={} hide={:?} proc={:?} exc={:?} js={:?}",
@@ -394,7 +416,7 @@ pub fn answer(e: &Engine, q: &Query) -> (String, bool) {
                     sorted(&r.hide_selectors),
                     sorted(&r.procedural_actions),
                     sorted(&r.exceptions),
-                    r.injected_script
+                    blocks
                 ),
                 r.generichide,
             )
